@@ -140,6 +140,14 @@ pub struct Ctx {
     pub wsbits: String,
 }
 
+/// whitespace bit of the protocol: `1` ASCII whitespace, `2` other Unicode whitespace (the model treats both as whitespace)
+pub fn wsbit(c: char) -> char {
+    if c.is_ascii_whitespace() { '1' } else if c.is_whitespace() { '2' } else { '0' }
+}
+pub fn unwsbit(c: char) -> char {
+    match c { '1' => ' ', '2' => '\u{00a0}', _ => 'a' }
+}
+
 pub fn make_ctx(text: &str) -> Ctx {
     let mut store = new_store();
     store
@@ -149,7 +157,7 @@ pub fn make_ctx(text: &str) -> Ctx {
     let wsbits: String = if chars.is_empty() {
         "-".into()
     } else {
-        chars.iter().map(|c| if c.is_whitespace() { '1' } else { '0' }).collect()
+        chars.iter().map(|c| crate::fam::rel::wsbit(*c)).collect()
     };
     Ctx { store, text: chars, wsbits }
 }
@@ -205,7 +213,7 @@ pub fn exec_line(line: &str) -> String {
     if t.len() != 9 || t[0] != "rel" {
         return "bad-op".into();
     }
-    let text: String = if t[2] == "-" { String::new() } else { t[2].chars().map(|c| if c == '1' { ' ' } else { 'a' }).collect() };
+    let text: String = if t[2] == "-" { String::new() } else { t[2].chars().map(crate::fam::rel::unwsbit).collect() };
     let ctx = make_ctx(&text);
     let resitem = ctx.store.resource("r").unwrap();
     let res: &TextResource = resitem.as_ref();
@@ -251,7 +259,7 @@ pub fn run(opts: &Opts) -> Report {
          distinct = distinct (operator, ranges) tuples",
     );
     // text with whitespace runs, non-ASCII, and whitespace at the very end
-    let text = if opts.thorough() { "ab  c\u{00e9} \u{1F600}d " } else { "ab  c\u{00e9} d" };
+    let text = if opts.thorough() { "ab \u{2028}c\u{00e9}\u{00a0}\u{1F600}d\u{3000}" } else { "ab \u{00a0}c\u{00e9}\u{3000}d" };
     let ctx = make_ctx(text);
     let resitem = ctx.store.resource("r").unwrap();
     let res: &TextResource = resitem.as_ref();
